@@ -221,6 +221,38 @@ theorem src_DHTGet_truthful (params : Src.kademlia.DHTGetParamsT)
     (err.isSome ↔ res.From = Src.zero32) :=
   Src.DHTGet_good params hAsk hVal res err h
 
+/-- ⊢ regenerated `DHTPut`, truthful: for every network (`Ask` any total function), key, value, time to live and
+    list of initial peers, the counters of the result count the nodes that were contacted — pairwise different ids
+    —, those among them that answered, and those that answered "accepted" (so `Accepted` is the number of DISTINCT
+    nodes that accepted); the error is raised exactly when that number is below the required minimum (2 when the
+    caller asks for less than 1). -/
+theorem src_DHTPut_truthful (params : Src.kademlia.DHTPutParamsT) (hAsk : ∀ n r, ∃ a, params.Ask n r = .ok a)
+    (res : Src.kademlia.DHTPutResultT) (err : Go.Err) (h : Src.kademlia.DHTPut params = .ok (res, err)) :
+    (∃ contacted : List Src.kademlia.NodeInfoT, (contacted.map (·.ID)).Nodup ∧
+      res.Contacted = (contacted.length : Int) ∧
+      res.Responded = ((contacted.filter (Src.putResponds params)).length : Int) ∧
+      res.Accepted = ((contacted.filter (Src.putAccepts params)).length : Int)) ∧
+    (err.isSome ↔ res.Accepted < (if params.MinAccepted < 1 then 2 else params.MinAccepted)) :=
+  Src.DHTPut_good params hAsk res err h
+
+/-- ⊢ regenerated `DHTFindNode`, truthful: the node reported as closest was passed to the operation's callback, no
+    node passed to the callback is nearer to the target (`visited` are the ids passed to the callback), and the
+    error is raised exactly when the reported node is not the target. -/
+theorem src_DHTFindNode_closest_is_min (params : Src.kademlia.DHTFindNodeParamsT)
+    (hAsk : ∀ n r, ∃ a, params.Ask n r = .ok a)
+    (hVal : ∀ x, ∃ b, (params.Validate.getD (fun _ => pure true)) x = .ok b)
+    (res : Src.kademlia.DHTFindNodeResultT) (err : Go.Err) (h : Src.kademlia.DHTFindNode params = .ok (res, err)) :
+    (∃ visited : List Go.Bytes,
+      (visited = [] ∧ res.Closest = Src.zero32) ∨
+      (res.Closest ∈ visited ∧
+        ∀ c ∈ visited, Kad.distanceLt (SrcKad.nb params.Target) (SrcKad.nb c) (SrcKad.nb res.Closest) = false)) ∧
+    (err.isSome ↔ res.Closest ≠ params.Target) := by
+  obtain ⟨⟨hv, visited, hG⟩, he⟩ := Src.DHTFindNode_good params hAsk hVal res err h
+  refine ⟨⟨visited, ?_⟩, he⟩
+  rcases hG with ⟨_, h1, h2⟩ | ⟨_, h1, h2⟩
+  · exact .inl ⟨h1, h2⟩
+  · exact .inr ⟨h1, h2⟩
+
 -- non-vacuity: a run of the regenerated DHTGet that returns a validated value (A answers [7], closer to key 0 than B)
 example :
     let mk : UInt8 → Src.kademlia.NodeInfoT := fun b => { ID := b :: List.replicate 31 0, Info := [] }
